@@ -41,6 +41,9 @@ type scase struct {
 	// meaning rests on something the reference interpreter does not model, such
 	// as how a program name is looked up along PATH); no prediction is made
 	Expect *expectation `json:"expect,omitempty"`
+	// Archive: the script's archive entries when they are not the standard ones
+	// (names may repeat)
+	Archive [][2]string `json:"archive,omitempty"`
 }
 
 type expectation struct {
@@ -78,9 +81,15 @@ func numberProbes(lines []string) []string {
 	return out
 }
 
-func scriptText(lines []string) string {
+func scriptText(lines []string) string { return scriptTextA(lines, nil) }
+
+// scriptTextA: the script with the given archive entries (nil: the standard archive).
+func scriptTextA(lines []string, archive [][2]string) string {
+	if archive == nil {
+		archive = archiveFiles
+	}
 	a := &txtar.Archive{Comment: []byte(strings.Join(numberProbes(lines), "\n") + "\n")}
-	for _, f := range archiveFiles {
+	for _, f := range archive {
 		a.Files = append(a.Files, txtar.File{Name: f[0], Data: []byte(f[1])})
 	}
 	return string(txtar.Format(a))
@@ -137,7 +146,7 @@ func run(root string, c scase) observed {
 		})
 		os.RemoveAll(dir)
 	}()
-	file := tsh.WriteScript(dir, "s.txt", scriptText(c.Lines))
+	file := tsh.WriteScript(dir, "s.txt", scriptTextA(c.Lines, c.Archive))
 	var mu sync.Mutex
 	var effects []string
 	style := "goexit"
@@ -150,6 +159,7 @@ func run(root string, c scase) observed {
 		WorkdirRoot:         work,
 		ContinueOnError:     c.Cfg.ContinueOnError,
 		RequireExplicitExec: c.Cfg.RequireExplicitExec,
+		RequireUniqueNames:  c.Cfg.RequireUniqueNames,
 	}
 	if !c.Cfg.NoCondition {
 		p.Condition = func(cond string) (bool, error) {
@@ -319,7 +329,12 @@ func check(root string, c scase, st *stats) (string, string) {
 		if o.Verdict != c.Expect.Verdict {
 			return "verdict-" + c.Expect.Verdict + "-reported-" + o.Verdict, fmt.Sprintf("reported %s, expected %s (%s); log:\n%s", o.Verdict, c.Expect.Verdict, c.Expect.Why, o.Log)
 		}
-		if c.Expect.Verdict == "fail" && (len(o.FailLines) == 0 || o.FailLines[0] != c.Expect.FailLine) {
+		if c.Expect.Verdict == "fail" && c.Expect.FailLine == 0 {
+			// the failure is not one of a script line (the archive itself is refused)
+			if len(o.FailLines) != 0 && o.FailLines[0] != 0 { // the log may say "s.txt:0:"
+				return "first-offending-line", fmt.Sprintf("the log names line(s) %v as failing, but no line should have run (%s); log:\n%s", o.FailLines, c.Expect.Why, o.Log)
+			}
+		} else if c.Expect.Verdict == "fail" && (len(o.FailLines) == 0 || o.FailLines[0] != c.Expect.FailLine) {
 			return "first-offending-line", fmt.Sprintf("the log names line(s) %v as failing, the first offending line is %d (%s); log:\n%s", o.FailLines, c.Expect.FailLine, c.Expect.Why, o.Log)
 		}
 		return "", ""
@@ -598,6 +613,34 @@ func realMain() {
 		for _, cfg := range []config{def, coe} {
 			e := pc.exp
 			cases = append(cases, scase{Cfg: cfg, Lines: pc.lines, Expect: &e})
+		}
+	}
+	// archives that repeat a name: the later entry wins, unless RequireUniqueNames
+	// is set, in which case the archive is refused and no line runs
+	dup1 := [][2]string{{"f", "x\n"}, {"g", "y\n"}, {"f", "z\n"}}
+	dup2 := [][2]string{{"d/e", "1\n"}, {"g", "y\n"}, {"d/./e", "2\n"}}
+	uniq := [][2]string{{"f", "x\n"}, {"g", "y\n"}, {"d/e", "1\n"}}
+	type ac struct {
+		archive [][2]string
+		unique  bool
+		lines   []string
+		exp     expectation
+	}
+	for _, a := range []ac{
+		{dup1, false, []string{"grep z f", "! grep x f"}, expectation{Verdict: "pass", Why: "of two entries named f the later one is on disk"}},
+		{dup1, false, []string{"exists g", "grep x f"}, expectation{Verdict: "fail", FailLine: 2, Why: "of two entries named f the later one is on disk"}},
+		{dup1, true, []string{"exists f"}, expectation{Verdict: "fail", Why: "RequireUniqueNames refuses an archive with two entries named f"}},
+		{dup1, true, []string{"stop"}, expectation{Verdict: "fail", Why: "RequireUniqueNames refuses an archive with two entries named f"}},
+		{dup1, true, []string{"skip"}, expectation{Verdict: "fail", Why: "RequireUniqueNames refuses an archive with two entries named f"}},
+		{dup2, false, []string{"grep 2 d/e"}, expectation{Verdict: "pass", Why: "d/e and d/./e name the same file; the later entry is on disk"}},
+		{dup2, true, []string{"exists d/e"}, expectation{Verdict: "fail", Why: "RequireUniqueNames: d/e and d/./e name the same file"}},
+		{uniq, true, []string{"grep x f", "grep 1 d/e"}, expectation{Verdict: "pass", Why: "unique names are accepted"}},
+		{uniq, true, []string{"grep x f", "grep 2 d/e"}, expectation{Verdict: "fail", FailLine: 2, Why: "unique names are accepted; d/e holds 1"}},
+	} {
+		for _, cfg := range []config{def, coe} {
+			cfg.RequireUniqueNames = a.unique
+			e := a.exp
+			cases = append(cases, scase{Cfg: cfg, Lines: a.lines, Expect: &e, Archive: a.archive})
 		}
 	}
 	// several script files in one invocation (the failure flag is shared)
